@@ -126,17 +126,17 @@ EXTRA = {
     "C19": " Multi-model DSSR documents number their models 1..n or otherwise (1-3-4, 0-1-2, 3-1-2); the request names a model by its number. A line may repeat the first column of the line before it. DSSR documents are also imported through process_external_tool_output on structures of other model numbers. Drawn listings are repeated to hundreds or thousands of lines in 3 of 16 draws. Two shards (thorough eight) judge listings of 30 000-80 000 lines (1-4 MiB).",
     "C15": " An mmCIF dialect whose label_seq_id repeats the author number is drawn, and insertion-code neighbours repeat a residue name half of the time. Flat models (every atom in one axis-aligned plane) are drawn too. The single model carries a drawn number (1, 2, 0, 7). One table in six carries its atom names in the pre-2007 spelling (O5*, C1*). The mmCIF dialect may spell numbers with exponents or further zeros.",
     "C08": " An mmCIF dialect whose label_seq_id repeats the author number is drawn too. Clash triples on a line are planted too. The mmCIF dialect may spell numbers with decimal exponents, explicit plus signs or further zeros.",
-    "C05": " The PDB-vs-mmCIF relation is also composed with a constant offset of the author numbers (negative numbers in both formats). The format relation is also run on the molecule as one requested model of a 2-3 model ensemble with drawn model numbers. First serials 9001 / 90000 and HETATM records are drawn. Residues deposited three times over under separate identities are written with their atoms as listed / reversed / rotated. Drawn purines are thinned to the border of what counts as a nucleotide before the relations are applied. Every base-base contact of a file in turn is made exactly normal to a coordinate axis on the 0.001 A grid and the annotation of that input compared with a generically moved copy of itself.",
+    "C05": " The PDB-vs-mmCIF relation is also composed with a constant offset of the author numbers (negative numbers in both formats). The format relation is also run on the molecule as one requested model of a 2-3 model ensemble with drawn model numbers. First serials 9001 / 90000 and HETATM records are drawn. Residues deposited three times over under separate identities are written with their atoms as listed / reversed / rotated. Drawn purines are thinned to the border of what counts as a nucleotide before the relations are applied. Every base-base contact of a file in turn is made exactly normal to a coordinate axis on the 0.001 A grid and the annotation of that input compared with a generically moved copy of itself. Drawn uridines become 4-thiouridines announced by MODRES records in the PDB text (same atoms in the mmCIF).",
     "C04": " CROWDED placements (2-16 perturbed copies of a run of 1-3 bases as chains of one model; a base has up to ~40 centroids within 6 A) are judged by the same all-pairs definition. Mini-structures carry drawn occupancies (0.00 / 0.5 / absent) and uridines relettered to thymidines. An assembly of 12-20 translated copies (3 700+ residues) is judged pair by pair. Multi-model structures, structures pulled apart to 5.5-5.99 A between two stacked residues and four-column placements around a gap inside 6 A are judged too. Moved corpus structures are also handed over with label-only (auth None) or author-only identities.",
-    "C06": " Generated pair lists name residues by one drawn convention: as the structure does, by author identity only, by label only, by both with a label the structure does not have, or as Residue3D objects of another structure object. Own annotation is also run over structures some of whose bases have no backbone (paired residues without a BPSEQ line). Drawn residues (and every ninth residue in own annotation) become abasic sites with the letter '?'.",
+    "C06": " Generated pair lists name residues by one drawn convention: as the structure does, by author identity only, by label only, by both with a label the structure does not have, or as Residue3D objects of another structure object. Own annotation is also run over structures some of whose bases have no backbone (paired residues without a BPSEQ line). Drawn residues (and every ninth residue in own annotation) become abasic sites with the letter '?'. A pair may be listed a second time with the other Saenger setting; its count in the extended rows is then judged three-valued.",
     "C07": " Before the elements are asked one of 9 histories of read-only queries (paired() iterated partly / fully, text, fcfs, dot_bracket) runs on the same object. After the first answer one of 7 histories of later queries (explicit conversion without / with a solver, fcfs, removals) runs and elements and dot-bracket are read again together. Both removals are among the queries run before the elements are first asked. .dbn inputs come in three notations; every printed strand must be a slice of the printed sequence and dot-bracket.",
     "C09": " Model numbers are drawn too (ascending, 3-1-2, 7-2-5, 10-20-30, 0-1-2), for tables and splitter inputs. Tables of 10 000-33 000 atoms per model run through the same round trips. Positions modelled as two differently named residues are drawn. The buffer a writer just filled is handed straight to the reader. Ensembles of 2 x 27 000 (thorough also 4 x 24 990, 2 x 70 000) atoms, whose PDB text exceeds 50 000 lines, run through the same round trips. The mmCIF dialect may spell numbers with exponents, plus signs or further zeros.",
     "C11": " Mini-structures may carry a residue as two non-adjacent record blocks of one identity (the reference model merges them; self-contact, membership, order and class soundness are judged on identities). Chains may be named B7 / B10 or 9 / 10. Docked placements with exactly two exclusive contacts of merging classes (3+5, 7+9; base-ribose and base-phosphate, either listing order) must carry the merged class 4 / 8. Moved corpus structures are also handed over with label-only (auth None) or author-only identities.",
     "C12": " Every returned dot-bracket is read completely (letters, brackets and the pairs it decodes itself to). The structure may sit behind a 260-300 nucleotide unpaired tail. convert_to_dot_bracket(None) is among the drawn calls.",
     "C13": " The scripted solver is request-aware: the first and the later solver calls of one request behave as scripted, the verdict per request is ok / fault / mixed (mixed: FCFS or an optimal notation), on structures repeated 1-3 times along the strand. Star structures (one stem crossing 28-36 others) run through the same grid. Ladders of 10-21 mutually crossing stems run through the grid as well. After the grid a twin molecule (same stems, other letters, longer tail) asks; its notation must be its own. Every eighth shard of this and every other check runs in a child interpreter started with -O.",
-    "C14": " Structures with 1024-8192 admissible notations are among the inputs. mmCIF variants with multi-character chain names, write_pdb(fit_to_pdb(table)) and the splitter's PDB output are among the artefacts. mmCIF variants may leave optional atom_site items out. Variants may restart the numbering inside a chain. The annotator's stem tables (--stems-csv, --inter-stem-csv) are among the artefacts. The JSON of one result object is written before and after its stems were used. One conflict group of nine mutually crossing stems (362 880 orderings) is compared across interpreters.",
-    "C17": " API-built residues may hold two atoms of one name. Assemblies of 8-20 translated copies of a corpus structure (53 000-90 000 atoms) are checked against the same enumeration. Files written for the tool may carry entity tables and a nucleotide ligand of a non-polymer entity. Residues may carry two different model numbers. Atom names may be longer than four characters. 8-20 displaced conformers of 2-4 residues pooled in one residue list (dozens of atoms within the search radius of one atom) are checked too.",
-    "C18": " Integer lattice points handed over as int64 / int32 / float64 arrays are judged with degeneracy decided exactly on the integers. The Atom entry point is asked forward, reversed, again and reversed-first. PDB corpus files renumbered onto insertion-code runs are run through the table check; a standard nucleotide with all four defining atoms must have its chi in the table. A row selection of the parsed table (non-default index) is run through the table check as well. 5' / 3' neighbours are the residues bonded on that side by the coordinates; chains numbered 3'->5' are run. PDB corpus files whose bases are slid along their glycosidic bonds to 0.85-2.45 A run through both implementations.",
+    "C14": " Structures with 1024-8192 admissible notations are among the inputs. mmCIF variants with multi-character chain names, write_pdb(fit_to_pdb(table)) and the splitter's PDB output are among the artefacts. mmCIF variants may leave optional atom_site items out. Variants may restart the numbering inside a chain. The annotator's stem tables (--stems-csv, --inter-stem-csv) are among the artefacts. The JSON of one result object is written before and after its stems were used. One conflict group of nine mutually crossing stems (362 880 orderings) is compared across interpreters. Not reached: results that depend on how long the external solver ran (the check owns hash seeds and processing order, not the clock).",
+    "C17": " API-built residues may hold two atoms of one name. Assemblies of 8-20 translated copies of a corpus structure (53 000-90 000 atoms) are checked against the same enumeration. Files written for the tool may carry entity tables and a nucleotide ligand of a non-polymer entity. Residues may carry two different model numbers. Atom names may be longer than four characters. 8-20 displaced conformers of 2-4 residues pooled in one residue list (dozens of atoms within the search radius of one atom) are checked too. Ligand phosphorus names (PA, PB, PG, P1, PC) are in the atom-name pool.",
+    "C18": " Integer lattice points handed over as int64 / int32 / float64 arrays are judged with degeneracy decided exactly on the integers. The Atom entry point is asked forward, reversed, again and reversed-first. PDB corpus files renumbered onto insertion-code runs are run through the table check; a standard nucleotide with all four defining atoms must have its chi in the table. A row selection of the parsed table (non-default index) is run through the table check as well. 5' / 3' neighbours are the residues bonded on that side by the coordinates; chains numbered 3'->5' are run. PDB corpus files whose bases are slid along their glycosidic bonds to 0.85-2.45 A run through both implementations. Corpus files with single inner backbone atoms left out must show no value for the torsions defined over them.",
     "C20": " Substitution alphabets shorter than the number of distinct values are drawn: a refusal is accepted, an answer only if it is an injective first-seen mapping that is returned and applied. Item names are laid out in column 0, indented, after a tab or on the loop_ line. Multi-line text values include lines ending in blanks. Values differing only by blanks at their edges are in the value pool. Category names with capital letters (pdbx_SG_project) are in the pool.",
 }
 
